@@ -4,6 +4,8 @@
 package schemahelper
 
 import (
+	"sort"
+
 	"github.com/hashicorp/hcl-lang/decoder/internal/ast"
 	"github.com/hashicorp/hcl-lang/lang"
 	"github.com/hashicorp/hcl-lang/schema"
@@ -103,7 +105,15 @@ func dependencyKeysFromBlock(block *hcl.Block, blockSchema blockSchema) schema.D
 
 	content := ast.DecodeBody(block.Body, blockSchema.Body)
 
-	for name, attrSchema := range blockSchema.Body.Attributes {
+	// visit the attributes in a fixed order, the order of the keys is visible to callers
+	names := make([]string, 0, len(blockSchema.Body.Attributes))
+	for name := range blockSchema.Body.Attributes {
+		names = append(names, name)
+	}
+	sort.Strings(names)
+
+	for _, name := range names {
+		attrSchema := blockSchema.Body.Attributes[name]
 		if attrSchema.IsDepKey {
 			var value cty.Value
 			attr, ok := content.Attributes[name]
